@@ -91,7 +91,6 @@ package expr
 // types go through the UserType interface (abstract: identifier and attribute as ghost state).
 //@ func (*Object).Set
 //@   params o n att
-//@   trusted
 //@   requires o != nil
 //@   modifies cell(o), elems(load(o)), each(load(o), Attribute)
 //@ func GeneratedResultType
